@@ -32,6 +32,12 @@ class HarnessError(Exception):
     pass
 
 
+def _akey(name: str, shape) -> str:
+    """Array inputs are keyed by name and shape: the same logical name used with two
+    shapes (a block and its one-item-longer variant) denotes two independent inputs."""
+    return f"{name}#{'x'.join(str(int(s)) for s in shape)}"
+
+
 class _Base:
     mode = "?"
 
@@ -117,6 +123,7 @@ class SymInputs(_Base):
         n = 1
         for s in shape:
             n *= s
+        name = _akey(name, shape)
         terms = [z3.BitVec(f"{name}[{i}]", w) for i in range(n)]
         self.vars[name] = ("bitsarr", w, shape, terms)
         dt = symnp.dtype("<f4" if w == 32 else "<f8")
@@ -131,6 +138,7 @@ class SymInputs(_Base):
 
     def iarray(self, name: str, n: int, code: str):
         k, signed = _INT_CODES[code]
+        name = _akey(name, (n,))
         terms = [z3.BitVec(f"{name}[{i}]", k) for i in range(n)]
         self.vars[name] = ("bvintarr", k, signed, terms)
         dt = symnp.dtype(("<i" if signed else "<u") + str(k // 8))
@@ -149,6 +157,7 @@ class SymInputs(_Base):
         """String of `length` symbolic characters.
         kind: valid (cp1252-encodable, non-NUL) | nonul (any code point but NUL) |
         any (any code point < 0x110000)."""
+        name = _akey(name, (length,))
         terms = [z3.BitVec(f"{name}[{i}]", CPW) for i in range(length)]
         self.vars[name] = ("str", terms)
         for t in terms:
@@ -169,6 +178,7 @@ class SymInputs(_Base):
     label = chars
 
     def rawbytes(self, name: str, n: int):
+        name = _akey(name, (n,))
         terms = [z3.BitVec(f"{name}[{i}]", 8) for i in range(n)]
         self.vars[name] = ("bytes", terms)
         if not terms:
@@ -232,6 +242,13 @@ class SymInputs(_Base):
 
     def concrete(self, x) -> bool:
         return not isinstance(x, (SBool, E.SymIntBase, SFloat, SBytes, SStr))
+
+    def far(self, x, y):
+        """x and y (float scalars of equal width) are certainly not np.isclose:
+        opposite signs, both magnitudes >= 1, neither NaN."""
+        fx = E.to_sfloat(x, getattr(y, "w", 32) if not isinstance(x, SFloat) else x.w)
+        fy = E.to_sfloat(y, fx.w)
+        return mkbool(symnp.far_e(fx.b, fy.b, fx.w))
 
     def truth(self, x) -> bool:
         """Concrete truth value of a condition on this path (forks if undecided)."""
@@ -606,7 +623,7 @@ class ConcInputs(_Base):
     def farray(self, name: str, shape, w: int = 32):
         shape = tuple(shape) if isinstance(shape, (tuple, list)) else (shape,)
         n = int(_rnp.prod(shape)) if shape else 1
-        vals = self._get(name, [0] * n)
+        vals = self._get(_akey(name, shape), [0] * n)
         u = _rnp.array(vals, dtype="<u4" if w == 32 else "<u8")
         return u.view("<f4" if w == 32 else "<f8").reshape(shape).copy()
 
@@ -615,19 +632,19 @@ class ConcInputs(_Base):
 
     def iarray(self, name: str, n: int, code: str):
         k, signed = _INT_CODES[code]
-        return _rnp.array(self._get(name, [0] * n), dtype=("<i" if signed else "<u") + str(k // 8))
+        return _rnp.array(self._get(_akey(name, (n,)), [0] * n), dtype=("<i" if signed else "<u") + str(k // 8))
 
     def int(self, name: str, lo=None, hi=None):
         return int(self._get(name, lo if lo is not None else 0))
 
     def chars(self, name: str, length: int, kind: str = "valid"):
-        vals = self._get(name, [0x41] * length)
+        vals = self._get(_akey(name, (length,)), [0x41] * length)
         return "".join(chr(v) for v in vals)
 
     label = chars
 
     def rawbytes(self, name: str, n: int):
-        return bytes(self._get(name, [0] * n))
+        return bytes(self._get(_akey(name, (n,)), [0] * n))
 
     def date(self, name: str):
         return _rdt.datetime.fromtimestamp(int(self._get(name, 1_000_000_000)))
@@ -667,6 +684,10 @@ class ConcInputs(_Base):
 
     def truth(self, x) -> bool:
         return _cb(x)
+
+    def far(self, x, y):
+        x, y = float(x), float(y)
+        return x == x and y == y and abs(x) >= 1 and abs(y) >= 1 and ((x < 0) != (y < 0))
 
     def prove(self, label: str, cond, note: str = "") -> bool:
         if isinstance(cond, (list, tuple)):
